@@ -226,7 +226,9 @@ func checkC01(r *Run) int {
 		}
 	}
 	if _, err := r.Mod.Build(nil); err != nil {
-		r.HarnessErrs = append(r.HarnessErrs, err.Error())
+		// the scratch module only holds generated code and fixed support files: a build failure
+		// that cannot be attributed to a case is still generated code that does not compile
+		r.addFinding(&Finding{Property: r.ID, Kind: "does-not-compile", Shape: "unattributed", Label: "scratch module", Msg: firstLines(err.Error(), 12), Count: 1, Witness: map[string]interface{}{"kind": "build-log"}})
 	}
 	r.phase("compile")
 	for _, b := range built {
